@@ -58,3 +58,16 @@ Proof. exact bridge_encode_uint64. Qed.
 Theorem C07_code_encode_byte : forall v size, g_cbor_encode_byte (Z.of_N v) (Z.of_N size) = zres (enc_byte v size).
 Proof. exact bridge_encode_byte. Qed.
 Print Assumptions C07_code_encode_uint64.
+
+(* ---- translator tie, second wave: the float encoders as translated from this run's clang AST ---- *)
+From CB Require Import Bridge_leaf_float Bridge_leaf_ehalf.
+Theorem C07_code_half : forall val size, val < 2^32 ->
+  gcbor_encode_half (Z.of_N val) (Z.of_N size) = option_map zres (encode_half val size).
+Proof. exact bridge_encode_half. Qed.
+Theorem C07_code_single : forall v size, v < 2^32 ->
+  gcbor_encode_single (Z.of_N v) (Z.of_N size) = zres (encode_single v size).
+Proof. exact bridge_encode_single. Qed.
+Theorem C07_code_double : forall v size, v < 2^64 ->
+  gcbor_encode_double (Z.of_N v) (Z.of_N size) = zres (encode_double v size).
+Proof. exact bridge_encode_double. Qed.
+Print Assumptions C07_code_half.
